@@ -1320,7 +1320,10 @@ impl<'a> ApplicableAttr<'a> {
                     quote!(#obj #field_path)
                 }
                 (None, Some(action)) => quote_action(action, Some(&field_path(or())), ctx),
-                _ => unreachable!("12"),
+                (None, None) => {
+                    let field_path = field_path(or());
+                    quote!(#obj #field_path)
+                }
             }
         };
         match self {
